@@ -26,6 +26,9 @@ pub struct Seen {
     pub node: Node,
     pub mtime: (i64, i64),
     pub mode: u32,
+    /// inode number and link count (names of one inode share their content whatever the tool does)
+    pub ino: u64,
+    pub nlink: u64,
 }
 
 pub type Snapshot = BTreeMap<String, Seen>;
@@ -58,6 +61,20 @@ pub fn materialise(root: &Path, tree: &Tree) -> io::Result<()> {
             Node::File(b) => fs::write(&p, &b.0)?,
             Node::Symlink(t) => std::os::unix::fs::symlink(crate::util::os(t), &p)?,
         }
+    }
+    Ok(())
+}
+
+/// turns the listed names into second links to their files (after `materialise`)
+pub fn link_up(root: &Path, links: &[(String, String)]) -> io::Result<()> {
+    for (name, target) in links {
+        let (n, t) = (abs(root, name), abs(root, target));
+        let both_files = fs::symlink_metadata(&n).map(|m| m.is_file()).unwrap_or(false) && fs::symlink_metadata(&t).map(|m| m.is_file()).unwrap_or(false);
+        if !both_files {
+            continue; // (a minimised case may have lost one of the two)
+        }
+        fs::remove_file(&n)?;
+        fs::hard_link(&t, &n)?;
     }
     Ok(())
 }
@@ -197,7 +214,7 @@ pub fn snapshot(root: &Path) -> io::Result<Snapshot> {
             } else {
                 Node::File(Bytes(fs::read(&path)?))
             };
-            out.insert(key, Seen { node, mtime: (m.mtime(), m.mtime_nsec()), mode: m.mode() });
+            out.insert(key, Seen { node, mtime: (m.mtime(), m.mtime_nsec()), mode: m.mode(), ino: m.ino(), nlink: m.nlink() });
             if m.is_dir() {
                 rec(root, &path, out)?;
             }
